@@ -260,6 +260,18 @@ def gen_doc(rng, *, kern_only=False, max_spines=4, splits=True, core=False, comm
                 row(lambda i, sp, ht: Cell(rng.choice(CLEFS) if i == k else '*', 'interp', sp, ht))
                 g.flags.add('clef-in-split')
                 continue
+            if early_end and started and join_points() and rng.random() < early_end:
+                # a split that is never joined: ALL sub-spines of one header end on this row with their own terminators,
+                # while another **kern spine goes on below (more terminators than headers before the last row)
+                groups = sorted({sp for sp, ht in paths if sum(1 for q in paths if q[0] == sp) > 1})
+                k = rng.choice(groups)
+                if any(q[1] == '**kern' and q[0] != k for q in paths):
+                    g.lines.append(('row', [Cell('*-' if sp == k else '*', 'spineop' if sp == k else 'interp', sp, ht)
+                                            for sp, ht in paths]))
+                    paths = [q for q in paths if q[0] != k]
+                    g.flags.add('early-end')
+                    g.flags.add('early-end-split')
+                    continue
             if join_points() and r < 0.45:
                 join_split()
                 continue
